@@ -1,5 +1,6 @@
 import RModel.Base.Bytes
 import RModel.Base.Lit
+import RModel.Base.Utf8
 /-
   C09 model: which entries of a tree renamify's planners may look at.
 
@@ -218,6 +219,8 @@ structure Pipeline where
   simpleFollows : Bool
   /-- `create_simple_plan` / `process_path_renames` strip only the FIRST search path before matching globs -/
   simpleFirstRootOnly : Bool := false
+  /-- `process_file_content` leaves a file that is not valid UTF-8 out of the plan (at every level) -/
+  simpleSkipsInvalidUtf8 : Bool := false
 
 structure Request where
   level : Nat
@@ -248,7 +251,8 @@ def inScopeSimple (P : Pipeline) (r : Request) (e : Entry) : Bool :=
   walked (P.cfgFor r) r.site e.path &&
   globsOk P.G r.gm r.globs (simpleGlobPath P r e) &&
   isFileFor P.simpleFollows e &&
-  (P.binaryAsText r.level || !(isBinary P.S e.content))
+  (P.binaryAsText r.level || !(isBinary P.S e.content)) &&
+  (!P.simpleSkipsInvalidUtf8 || Utf8.valid e.content)
 
 /-- both rename planners: may the entry be proposed for renaming (any lstat type) -/
 def renameCandidate (P : Pipeline) (r : Request) (e : Entry) : Bool :=
